@@ -439,11 +439,9 @@ as numpy.loadtxt will not work as expected."""
                   dtype=[(np.str_('<;'), '<i8'), (np.str_(';<'), '<i8')])
 
         """
-        return numpy.ndarray(
-            shape=self.shape,
-            dtype=[(key, self.dtype) for key in self.keys],
-            buffer=self.data,
-        )
+        # a plain view of the same memory: unlike a fresh array over
+        # `self.data` it follows the strides of transposed and sliced views.
+        return numpy.ndarray.view(self, type=numpy.ndarray)
 
     def isconstant(self) -> bool:
         """
